@@ -481,7 +481,13 @@ func DischargeAll(obls []*Obligation, timeoutS, seed, workers int, dumpDir strin
 		}
 		script, q := batchScript(os_)
 		if len(script) <= 4<<20 {
-			r := Solve(script, q, timeoutS, seed, false)
+			// a batch is only a shortcut: give it a short budget and bisect; the tier's full budget
+			// is for single obligations
+			bt := timeoutS
+			if bt > 15 {
+				bt = 15
+			}
+			r := Solve(script, q, bt, seed, false)
 			if r.Status == "unsat" {
 				share := r.Ms / int64(len(idx))
 				for _, i := range idx {
